@@ -18,8 +18,8 @@ fn build(es: &[XE]) -> Vec<u8> {
     for e in es {
         // raw names: go through the chunk level so that hostile names reach the reader as written
         let entry = match e.kind {
-            0 => { let mut b = EntryBuilder::new_file(EntryName::from(e.name.as_str()), WriteOptions::store()).unwrap(); use std::io::Write; b.write_all(&e.content).unwrap(); b.build().unwrap() }
-            1 => EntryBuilder::new_dir(EntryName::from(e.name.as_str())).build().unwrap(),
+            0 => { let mut b = EntryBuilder::new_file(EntryName::from(e.name.as_str()), WriteOptions::store()).unwrap(); use std::io::Write; b.write_all(&e.content).unwrap(); if let Some(m) = e.perm { b.permission(Permission::new(0, "root".into(), 0, "root".into(), m)); } b.build().unwrap() }
+            1 => { let mut b = EntryBuilder::new_dir(EntryName::from(e.name.as_str())); if let Some(m) = e.perm { b.permission(Permission::new(0, "root".into(), 0, "root".into(), m)); } b.build().unwrap() }
             2 => { let mut b = EntryBuilder::new_symbolic_link(EntryName::from(e.name.as_str()), EntryReference::from(String::from_utf8_lossy(&e.content).as_ref())).unwrap(); if let Some(m) = e.perm { b.permission(Permission::new(0, "root".into(), 0, "root".into(), m)); } b.build().unwrap() }
             _ => EntryBuilder::new_hard_link(EntryName::from(e.name.as_str()), EntryReference::from(String::from_utf8_lossy(&e.content).as_ref())).unwrap().build().unwrap(),
         };
@@ -78,7 +78,8 @@ pub fn extract_fs(ctx: &mut Ctx) {
         let fname = |rng: &mut rand_chacha::ChaCha8Rng| ["a", "b.txt", "d/x.txt", "d/e/y", "l", "l/x.txt", "d", "h", "k/z"][rng.gen_range(0..9)].to_string();
         let k = rng.gen_range(1..6);
         let mut es: Vec<XE> = vec![];
-        let scenario = if case < 6 { case } else { rng.gen_range(0..10) }; // the first five cases are the corpus witnesses of the known findings
+        let scenario = if case < 6 { case } else { rng.gen_range(0..10) }; // the first six cases are the witnesses of the (now repaired) escapes
+        let keep_perm = scenario == 5 || (scenario > 5 && rng.gen_bool(0.3));
         for i in 0..k {
             let e = match (scenario, i) {
                 (0, 0) => XE { name: "l".into(), kind: 2, content: format!("{root}/outside").into_bytes(), perm: None },          // absolute link to outside dir
@@ -96,10 +97,10 @@ pub fn extract_fs(ctx: &mut Ctx) {
                     let content = match kind {
                         0 => format!("content-{i}").into_bytes(),
                         1 => vec![],
-                        2 => ["a", "d", "../out/a", "nowhere", "d/e"][rng.gen_range(0..5)].as_bytes().to_vec(),
-                        _ => ["a", "b.txt", "../a", "d/x.txt"][rng.gen_range(0..4)].as_bytes().to_vec(),
+                        2 => { let abs = format!("{root}/outside"); ["a", "d", "../out/a", "nowhere", "d/e", "../outside", "../outside/secret", "../outside/new", abs.as_str(), ".."][rng.gen_range(0..10)].as_bytes().to_vec() }
+                        _ => { let abs = format!("{root}/outside/secret"); ["a", "b.txt", "../a", "d/x.txt", "../outside/secret", "l/secret", "../../outside/secret", abs.as_str(), "l", ".."][rng.gen_range(0..10)].as_bytes().to_vec() }
                     };
-                    XE { name, kind, content, perm: None }
+                    XE { name, kind, content, perm: if keep_perm && kind != 3 { Some([0o700u16, 0o777, 0o604][rng.gen_range(0..3)]) } else { None } }
                 }
             };
             es.push(e);
@@ -111,11 +112,21 @@ pub fn extract_fs(ctx: &mut Ctx) {
             if !victim.is_empty() {
                 let p = sbx.path("out").join(&victim);
                 let _ = std::fs::create_dir_all(p.parent().unwrap());
-                match rng.gen_range(0..4) {
+                match rng.gen_range(0..7) {
                     0 => { let _ = std::fs::write(&p, b"OLD"); }
                     1 => { let _ = std::fs::write(&p, b""); }
                     2 => { let _ = std::fs::create_dir_all(&p); }
-                    _ => { let _ = std::os::unix::fs::symlink("../outside/secret", &p); }
+                    3 => { let _ = std::os::unix::fs::symlink("../outside/secret", &p); }
+                    4 => { let _ = std::os::unix::fs::symlink(format!("{root}/outside"), &p); }
+                    5 => { let _ = std::os::unix::fs::symlink(format!("{root}/outside/not-yet"), &p); }
+                    _ => {
+                        // a link in the way of the destination: its first component points outside
+                        let first = victim.split('/').next().unwrap().to_string();
+                        let q = sbx.path("out").join(&first);
+                        let _ = std::fs::remove_dir_all(&q);
+                        let _ = std::fs::remove_file(&q);
+                        let _ = std::os::unix::fs::symlink("../outside", &q);
+                    }
                 }
             }
         }
@@ -124,7 +135,7 @@ pub fn extract_fs(ctx: &mut Ctx) {
         let before = snapshot(&sbx.root);
         let mut args: Vec<&str> = vec!["--quiet", "extract", "a.pna", "--out-dir", "out"];
         if overwrite { args.push("--overwrite"); }
-        if scenario == 5 { args.push("--keep-permission"); }
+        if keep_perm { args.push("--keep-permission"); }
         let r = run_pna(&sbx, &sbx.root, &args, None, 60, &[]);
         let mut after = snapshot(&sbx.root);
         after.retain(|p, _| p != "tmp" && !p.starts_with("tmp/"));
@@ -138,7 +149,7 @@ pub fn extract_fs(ctx: &mut Ctx) {
         // ---- C09 oracle: nothing outside out/ is created, modified or linked
         let outside_before: BTreeMap<&String, &Node> = before_m.iter().filter(|(p, _)| !p.starts_with("out/") && *p != "out" && *p != "a.pna").collect();
         let outside_after: BTreeMap<&String, &Node> = after.iter().filter(|(p, _)| !p.starts_with("out/") && *p != "out" && *p != "a.pna").collect();
-        let strip = |m: &BTreeMap<&String, &Node>| -> Vec<(String, String)> { m.iter().map(|(p, n)| ((*p).clone(), match n { Node::File { content, nlink, mode, .. } => format!("file:{}:{:o}:{}", hexw(content), mode, nlink), Node::Dir { .. } => "dir".into(), Node::Symlink { target } => format!("link:{target}"), Node::Other => "other".into() })).collect() };
+        let strip = |m: &BTreeMap<&String, &Node>| -> Vec<(String, String)> { m.iter().map(|(p, n)| ((*p).clone(), match n { Node::File { content, nlink, mode, .. } => format!("file:{}:{:o}:{}", hexw(content), mode, nlink), Node::Dir { mode } => format!("dir:{:o}", mode), Node::Symlink { target } => format!("link:{target}"), Node::Other => "other".into() })).collect() };
         if strip(&outside_before) != strip(&outside_after) {
             // classify by the shape of the history (matchers of the known findings)
             let (sb, sa) = (strip(&outside_before), strip(&outside_after));
